@@ -6,6 +6,7 @@
 import EinoV.Model.C15
 import EinoV.Proofs.C15Trie
 import EinoV.Proofs.C15
+import EinoV.Proofs.C15Keys
 import EinoV.Gen.FactsC15
 import EinoV.Expected.C15
 
@@ -82,6 +83,20 @@ theorem mapped_exact (T : FTy) (l : List (Path × Taken))
     have hpw' := (hp.symm.pairwise_iff (R := fun (x y : Path × Taken) => ¬ prefixRel x.1 y.1)
       (fun h hh => h (prefixRel_symm hh))).mp hpw
     exact convertFrom_perm T hp hpw' _
+
+/-- **mapped_exact (no other keys).** "Everything else zero-valued" for maps and `any` holes: in
+    the successor input built from an accepted set, a map found at a path `c` that is not at or
+    below a target has no key except those lying on a target path (a fresh instance has none). -/
+theorem mapped_exact_no_other_keys (T : FTy) (l : List (Path × Taken)) (v : FVal)
+    (hv : convertTo T l = some v) (c : Path) (hc : ∀ x ∈ l, ¬ x.1 <+: c)
+    (ks : List String) (hk : keysAt T v c = some ks) :
+    ∀ k ∈ ks, ∃ x ∈ l, (c ++ [k]) <+: x.1 := by
+  intro k hmem
+  rcases convertFrom_keys T l (newInstance T) v c ks k hv hc hk hmem with ⟨ks0, h0, hin⟩ | h
+  · have := keysAt_newInstance T c ks0 h0
+    subst this
+    simp at hin
+  · exact h
 
 /-- **stream_agrees.** In streaming execution every predecessor edge delivers its own chunk: the
     entries `l₁` of one edge (a sub-list of all entries `l`) are converted on their own.  The chunk
